@@ -240,6 +240,13 @@ impl Prop for C25 {
         }
     }
 
+    fn result_tag(&self, line: &str, result: &str) -> Option<String> {
+        match opname(line) {
+            "state" => None,
+            _ => Some(result.split(' ').next().unwrap_or("").to_string()),
+        }
+    }
+
     fn run(&mut self, line: &str) -> String {
         let op = opname(line);
         if op == "reset" {
